@@ -33,6 +33,7 @@ RULE = (
     "every corpus chart per player x 4 include sets. distinct = distinct case JSON"
 )
 RULE += " " + "Added after the seeding rounds: the stream is handed to group_notes as list, one-shot iterator, generator and NoteData object in rotation; hand-built sequences include a note-with-tail whose head lies inside another one on its column (RAISE and KEEP judged exactly; under DROP the inner hold's own tail may be present or absent)."
+RULE += " " + "Round 6: part 'long-holds' as in C09; groups are handed to ungroup_notes as lists or as tuples (any Sequence of notes is a group)."
 ASSUMPTIONS = [
     "reference model vf/model_group.py names the orphans that DROP policies remove",
     "streams have unique (beat, column) positions; tails carry no keysound index (the property's domain)",
